@@ -173,6 +173,9 @@ unsigned FilePersister::get_last_seqnum(unsigned& sequence) const
 unsigned FilePersister::get(const unsigned from, const unsigned to, Session& session,
 		bool (Session::*callback)(const Session::SequencePair& with, Session::RetransmissionContext& rctx)) const
 {
+	// read the next send number before looking at the store: a message sent in between is then either replayed
+	// or left to the next request, never covered by the closing gap fill
+	Session::RetransmissionContext rctx(from, to, session.get_next_send_seq());
 	unsigned last_seq(0), startSeqNum;
 	{
 		f8_scoped_spin_lock guard(_spl);
@@ -181,7 +184,6 @@ unsigned FilePersister::get(const unsigned from, const unsigned to, Session& ses
 	}
 	unsigned recs_sent(0);
 	const unsigned finish(to == 0 ? last_seq : to);
-	Session::RetransmissionContext rctx(from, to, session.get_next_send_seq());
 
 	if (!startSeqNum || from > finish)
 	{
